@@ -28,8 +28,11 @@ for sid in ids:
         if r.returncode != 0:
             print("%s %s ERROR patch does not apply: %s" % (sid, pid, r.stdout.strip()[:200]))
             continue
+        # private copy of the Coq tree (sources + compiled files, mtimes kept): regenerated Gen/*.v of the
+        # changed source never touch /verif/coq, so runs on the unchanged tree cannot be disturbed
+        subprocess.run(["cp", "-a", os.path.join(VERIF, "coq"), scratch + "/coq"], check=True)
         env = dict(os.environ, VERIF_REPO=scratch + "/r", VERIF_EVIDENCE_DIR=scratch + "/ev",
-                   VERIF_REPLAY_DIR=scratch + "/replays")
+                   VERIF_REPLAY_DIR=scratch + "/replays", VERIF_COQ=scratch + "/coq", VERIF_BUILD=scratch + "/build")
         t0 = time.time()
         p = subprocess.run(["/venv/bin/python", os.path.join(VERIF, "harness/vcheck.py"), pid, "--tier", tier],
                            cwd=VERIF, env=env, stdout=subprocess.PIPE, stderr=subprocess.STDOUT, text=True)
